@@ -141,8 +141,12 @@ def run(original_args) -> int:
         logger.error(err)
         return 1
 
-    tool_result_files_map["sonar"].extend(argv.sonar_issues_json or [])
-    tool_result_files_map["sonar"].extend(argv.sonar_hotspots_json or [])
+    # one export may be given to both options: read it once
+    tool_result_files_map["sonar"].extend(
+        dict.fromkeys(
+            (argv.sonar_issues_json or []) + (argv.sonar_hotspots_json or [])
+        )
+    )
     tool_result_files_map["defectdojo"] = argv.defectdojo_findings_json or []
 
     for file_name in itertools.chain(*tool_result_files_map.values()):
